@@ -83,14 +83,20 @@ Proof. exact ValidFinal.encoded_instantiations_complete. Qed.
 Print Assumptions encoded_instantiations_complete.
 
 (** 4. The side condition [EncInv] of C02 [wiring_correct] holds of every reachable graph, given how a universe is built
-       ([UnivOK]) and that no type definition is exported under a second name ([DefsSingle]; without it C02's statement
-       is false of the code: known finding C02-def-extra-export-name). [KindInv] is the new history invariant behind it. *)
+       ([UnivOK]). That no type definition is exported under a second name ([DefsSingle]) holds of every reachable graph
+       since [export(definition, other_name)] renames the definition (repaired finding C02-def-extra-export-name;
+       [defs_single_reachable], from the history invariant [GraphDefExport.DefExp]). [KindInv] is the other history
+       invariant behind it. *)
 Theorem kind_inv_reachable : forall u ops, KindInv u (run u ops).
 Proof. exact reach_kind_inv. Qed.
 Print Assumptions kind_inv_reachable.
 
+Theorem defs_single_reachable : forall u ops, DefsSingle (run u ops).
+Proof. exact reach_defs_single. Qed.
+Print Assumptions defs_single_reachable.
+
 Theorem enc_inv_reachable : forall e u ops,
-  UnivOK e u -> DefsSingle (run u ops) -> EncInv e u (run u ops).
+  UnivOK e u -> EncInv e u (run u ops).
 Proof. exact ValidEncInv.enc_inv_reachable. Qed.
 Print Assumptions enc_inv_reachable.
 
@@ -107,7 +113,7 @@ Print Assumptions enc_inv_reachable.
        (node index missing / set twice, encoded import missing), which needs the topological-order argument
        (all other panics are excluded by [encoder_panics_classified] below). *)
 Theorem no_late_failure_partial : forall e u ops dc tau ord st names,
-  UnivOK e u -> PkgIdent e u -> DefsSingle (run u ops) ->
+  UnivOK e u -> PkgIdent e u ->
   topo_orderb (run u ops) ord = true ->
   encode_with_order e u (run u ops) dc tau ord = ROk (st, names) ->
   (forall p, In p (e_dedup st) -> fst p = snd p) ->
